@@ -434,7 +434,9 @@ func (x *Exec) invoke(st *State, c *ssa.Call, com *ssa.CallCommon, recv Val, arg
 			_ = iv
 		}
 	}
-	x.safety(st, c, "nil", Not(Eq(iv.Tag, e.ar.IConst(0))), "interface receiver is non-nil")
+	if _, isTP := com.Value.Type().(*types.TypeParam); !isTP {
+		x.safety(st, c, "nil", Not(Eq(iv.Tag, e.ar.IConst(0))), "interface receiver is non-nil")
+	}
 	// statically known dynamic type: resolve the method
 	if iv.Tag.IsConst() && iv.Tag.Val.IsInt64() {
 		id := int(iv.Tag.Val.Int64())
